@@ -110,6 +110,11 @@ struct FileInfo {
   bool isDirectory() const;
 
   bool operator==(const FileInfo& rhs) const {
+    // The record of an existing object never equals the "missing" sentinel,
+    // even if every field compared below is zero (an empty file dated at the
+    // epoch, observed without device and inode).
+    if (isMissing() != rhs.isMissing())
+      return false;
     return (device == rhs.device &&
             inode == rhs.inode &&
             size == rhs.size &&
